@@ -11,7 +11,10 @@ META = {
                    "from the working tree on every run, so a changed or new site changes the Lean term the theorem is about; "
                    "the model of each site is compared byte-for-byte with the real API on a length x size grid with guard bytes."),
     "level_note": ("Trusted: Lean kernel; the regex translator gen/c20_sites.py (fails closed on shapes it does not know; "
-                   "its site count is cross-checked by an independent scan); ISO C strncpy/snprintf semantics as modelled; "
+                   "its site count is cross-checked by an independent scan; every call of a copy primitive or local copy helper in the "
+                   "two files that does not write to the destination parameter of an extracted site and is not the allocate-exactly-"
+                   "then-strcpy idiom, and every function with a writable char* parameter that is not an extracted site, becomes an "
+                   ".unknown site: C20:stray-copy); ISO C strncpy/snprintf semantics as modelled; "
                    "the harness under ASan+UBSan. Not covered: copy sites outside the two API files."),
     "design_ref": "DESIGN.md §3 C20",
 }
@@ -75,12 +78,13 @@ def run(c):
     # B + K + O
     rc, out, rows = run_grid(c, maxlen, maxn)
     san_abort = rc != 0
-    model_in = "".join("%s %s %d %s\n" % (fn, s, n, b) for fn, s, n, b, a, r in rows)
+    # `Fn#variant` rows reach the site of Fn in another way (missing key, non-string node, long value): the model is the site's
+    model_in = "".join("%s %s %d %s\n" % (fn.split("#")[0], s, n, b) for fn, s, n, b, a, r in rows)
     model_out = vlib.run_driver("driver_c20", model_in).splitlines()
     mismatches, o_fail, model_viol = [], {}, {}
     seen_fns, nontrivial = set(), set()
     for (fn, s, n, b, a, r), m in zip(rows, model_out):
-        seen_fns.add(fn)
+        seen_fns.add(fn.split("#")[0])
         src, before, after = unhex(s), unhex(b), unhex(a)
         if len(src) >= n - 1:
             nontrivial.add((fn, len(src), n))
@@ -88,6 +92,8 @@ def run(c):
             # the call reports that it copied nothing (no such property / key, empty value): the property speaks of the calls
             # that copy; what is demanded here is only that the buffer was left alone
             why = "wrote-although-it-reports-failure" if after != before else None
+            if why is None and "#" in fn and fn.split("#")[1] in ("int", "long"):
+                why = "stored-string-not-copied"       # a scalar / long string was stored under this key just before
             if why is None and fn == "RimeConfigGetString":
                 # the harness stored a string under this key just before (config_set_string succeeded), of whatever length —
                 # the empty one included: the getter has a string to copy, "for every string length"
@@ -107,7 +113,8 @@ def run(c):
             if whym:
                 model_viol.setdefault(fn, {"fn": fn, "src_hex": s, "n": n, "model_after": m, "clause": whym})
     # sites the harness does not drive (new API function): correspondence cannot cover them
-    undriven = [f for f in site_fns if f not in seen_fns]
+    stray = gen.get("stray_copies", [])
+    undriven = [f for f in site_fns if f not in seen_fns and "@" not in f]
     # verdicts
     for (fn, why), case in sorted(o_fail.items()):
         c.report("C20:%s:%s" % (fn, why), "%s leaves %s (e.g. string length %d, buffer size %d)" %
@@ -120,6 +127,12 @@ def run(c):
         c.report("C20:correspondence", "model of the regenerated sites and the implementation disagree on %d grid points"
                  % len(mismatches), {"kind": "correspondence", "first": mismatches[:5],
                                      "broken": "correspondence driver_c20 vs c20_harness"}, no_input=True)
+    for f, line, fn, text in stray[:4]:
+        # a copy primitive the translator cannot tie to an extracted site (new function, struct field, alias, other
+        # buffer/size parameter shape): the site table gets an `.unknown` entry, C20.site_ok no longer holds for the tree
+        c.report("C20:stray-copy:%s" % fn, "%s:%d in %s: `%s` copies into a buffer that is not the destination of any extracted (buffer, size) site; "
+                 "it is neither modelled nor driven by the grid" % (f, line, fn, text),
+                 {"kind": "proof", "broken_theorems": ["C20.site_ok"], "stray_copies": stray}, no_input=True)
     if undriven and not o_fail:
         c.report("C20:undriven-site", "copy site(s) %s found in the source are not driven by the harness" % undriven,
                  {"kind": "correspondence", "broken": "harness coverage of generated site table", "sites": undriven},
@@ -138,7 +151,8 @@ def run(c):
         "rule": "grid: every copy site x stored length 0..%d x buffer size 1..%d with 4 guard bytes; non-trivial = string does not fit with room to spare (len >= n-1); distinct by (site, len, n)" % (maxlen, maxn),
         "samples": [dict(zip(["fn", "src", "n", "before", "after", "ret"], r)) for r in rows[:: max(1, len(rows) // 5)][:6]],
         "generated_sites": gen["sites"], "independent_site_count": gen["independent_count"],
-        "sites_driven": sorted(seen_fns), "correspondence_mismatches": len(mismatches),
+        "sites_driven": sorted(seen_fns), "stray_copies": stray,
+        "variant_rows": sum(1 for r in rows if "#" in r[0]), "correspondence_mismatches": len(mismatches),
         "impl_monitor_failures": len(o_fail), "model_monitor_failures": len(model_viol),
         "source_hash": vlib.source_hash(SRC_FILES), "proof_failures": audit["failures"],
     })
@@ -152,7 +166,8 @@ def replay(c, r):
         print("replay: this file names a broken obligation, no concrete input:", r.get("what"))
         return 1
     fn, ln, n = args
-    rc, out, rows = run_grid(c, ln, n)
+    # variant rows (`Fn#missing`, `#long` ...) are produced whatever the grid bounds are; `#long` ones for their own sizes
+    rc, out, rows = run_grid(c, 1, 1 if fn.endswith("#long") else n) if "#" in fn else run_grid(c, ln, n)
     for (f, s, k, b, a, ret) in rows:
         src = unhex(s)
         if f == fn and len(src) == ln and k == n:
